@@ -1,3 +1,4 @@
+import AM.Gen.Consts
 import AM.Model.Handoff
 import AM.Proofs.TrackerInv
 /-! # C10 — whole events in causal order
@@ -15,6 +16,11 @@ Go routine; no executable model can establish that. It is exercised by the harne
 `O_APPEND` file (in-process and through the built daemon). -/
 namespace AM.C10
 open AM AM.HO
+
+/-- the hand-off is modelled as a rendezvous (`Handoff.Act.handoff`: the sshd thread stays blocked until the correlator
+takes the login): the `logins` channel of `RunNamedPipe` is unbuffered in the working tree (regenerated fact) -/
+theorem gen_logins_rendezvous : AM.Gen.loginsChanUnbuffered = true := rfl
+
 open AM.Tr (Login Emitted AEvent Time Inv loginsOf loginsOf_append inv_init inv_step out_step)
 
 /-- every UserAction is preceded by the UserLogin of the login it carries -/
